@@ -18,3 +18,605 @@ Lemma retarget_keeps_bytes : forall scope sp o,
   o_segment (retarget scope sp o) = o_segment o /\
   o_scope (retarget scope sp o) = scope /\ o_span (retarget scope sp o) = sp.
 Proof. intros. cbn. repeat split. Qed.
+
+(* ------------------------------------------------------------------ monadic helpers *)
+Lemma filterM_ok : forall {A} (p : A -> res bool) (q : A -> bool) l,
+  (forall x, In x l -> p x = Ok (q x)) -> filterM p l = Ok (filter q l).
+Proof.
+  induction l as [|x r IH]; intros H; cbn [filterM filter]; [reflexivity|].
+  rewrite (H x (or_introl eq_refl)). cbn [bind]. rewrite IH by (intros; apply H; right; assumption).
+  cbn [bind]. destruct (q x); reflexivity.
+Qed.
+
+Lemma mapM_ok : forall {A B} (f : A -> res B) (g : A -> B) l,
+  (forall x, In x l -> f x = Ok (g x)) -> mapM f l = Ok (map g l).
+Proof.
+  induction l as [|x r IH]; intros H; cbn [mapM map]; [reflexivity|].
+  rewrite (H x (or_introl eq_refl)). cbn [bind]. rewrite IH by (intros; apply H; right; assumption).
+  reflexivity.
+Qed.
+
+(* ------------------------------------------------------------------ runs: recursive characterisation *)
+Fixpoint span_run (a : Z) (cs : list cell) : list cell * list cell :=
+  match cs with
+  | c :: r => if fst c =? a then let (p, q) := span_run (a + 1) r in (c :: p, q) else ([], cs)
+  | [] => ([], [])
+  end.
+
+Lemma span_run_app : forall cs a p q, span_run a cs = (p, q) -> cs = p ++ q.
+Proof.
+  induction cs as [|c r IH]; intros a p q H; cbn [span_run] in H.
+  - inversion H. reflexivity.
+  - destruct (fst c =? a).
+    + destruct (span_run (a + 1) r) as [p' q'] eqn:E. inversion H; subst. cbn. f_equal. eapply IH; eauto.
+    + inversion H. reflexivity.
+Qed.
+
+Fixpoint runs_rec (fuel : nat) (cs : list cell) : list (list cell) :=
+  match fuel with
+  | O => []
+  | S f => match cs with
+           | [] => []
+           | c :: r => let (p, q) := span_run (fst c + 1) r in (c :: p) :: runs_rec f q
+           end
+  end.
+
+Lemma runs_rec_fuel : forall f1 f2 cs, (length cs <= f1)%nat -> (length cs <= f2)%nat -> runs_rec f1 cs = runs_rec f2 cs.
+Proof.
+  induction f1 as [|f1 IH]; intros f2 cs H1 H2.
+  - destruct cs; [|cbn in H1; lia]. destruct f2; reflexivity.
+  - destruct cs as [|c r]; [destruct f2; reflexivity|].
+    destruct f2 as [|f2]; [cbn in H2; lia|].
+    cbn [runs_rec]. destruct (span_run (fst c + 1) r) as [p q] eqn:E.
+    apply span_run_app in E. f_equal. apply IH; subst r; cbn in *; rewrite app_length in *; lia.
+Qed.
+
+Lemma last_opt_snoc : forall {A} (l : list A) x, last_opt (l ++ [x]) = Some x.
+Proof. intros. unfold last_opt. rewrite rev_app_distr. reflexivity. Qed.
+
+Lemma fold_push : forall cs rs run c0,
+  fold_left push_cell cs (rs ++ [run ++ [c0]]) =
+  let (p, q) := span_run (fst c0 + 1) cs in (rs ++ [run ++ [c0] ++ p]) ++ runs_rec (length q) q.
+Proof.
+  induction cs as [|c r IH]; intros rs run c0.
+  - cbn. rewrite !app_nil_r. reflexivity.
+  - cbn [fold_left span_run].
+    unfold push_cell at 2. rewrite last_opt_snoc, last_opt_snoc. destruct c0 as [la lb]. cbn [fst].
+    rewrite Z.eqb_sym. destruct (fst c =? la + 1) eqn:E.
+    + rewrite removelast_last. specialize (IH rs (run ++ [(la, lb)]) c).
+      apply Z.eqb_eq in E. rewrite E in IH.
+      etransitivity; [exact IH|]. destruct (span_run (la + 1 + 1) r) as [p q].
+      rewrite <- !app_assoc. reflexivity.
+    + specialize (IH (rs ++ [run ++ [(la, lb)]]) [] c). cbn [app] in IH. etransitivity; [exact IH|].
+      destruct (span_run (fst c + 1) r) as [p q] eqn:E2.
+      rewrite app_nil_r. rewrite <- app_assoc. f_equal. cbn [length runs_rec app]. rewrite E2.
+      cbn [app]. f_equal. apply runs_rec_fuel; [lia|].
+      apply span_run_app in E2. subst r. rewrite app_length. lia.
+Qed.
+
+Lemma runs_eq : forall cs, runs cs = runs_rec (length cs) cs.
+Proof.
+  intros [|c r]; [reflexivity|].
+  unfold runs. cbn [fold_left]. unfold push_cell at 2. cbn [last_opt rev].
+  pose proof (fold_push r [] [] c) as H. cbn [app] in H. cbn [app]. etransitivity; [exact H|].
+  cbn [length runs_rec]. destruct (span_run (fst c + 1) r) as [p q] eqn:E.
+  cbn [app]. f_equal. apply runs_rec_fuel; [lia|]. apply span_run_app in E. subst r. rewrite app_length. lia.
+Qed.
+(* ------------------------------------------------------------------ pack = chunks of runs *)
+Fixpoint consec (a : Z) (cs : list cell) : Prop :=
+  match cs with [] => True | c :: r => fst c = a /\ consec (a + 1) r end.
+Definition stops (a : Z) (q : list cell) : Prop := match q with [] => True | c :: _ => fst c <> a end.
+
+Lemma span_run_spec : forall cs a p q, span_run a cs = (p, q) -> consec a p /\ stops (a + Z.of_nat (length p)) q.
+Proof.
+  induction cs as [|c r IH]; intros a p q H; cbn [span_run] in H.
+  - inversion H. cbn. auto.
+  - destruct (fst c =? a) eqn:E.
+    + destruct (span_run (a + 1) r) as [p' q'] eqn:E2. inversion H; subst. apply IH in E2. destruct E2 as [C St].
+      apply Z.eqb_eq in E. split; [cbn; auto|]. cbn [length]. replace (a + Z.of_nat (S (length p'))) with (a + 1 + Z.of_nat (length p')) by lia. exact St.
+    + inversion H; subst. apply Z.eqb_neq in E. cbn. split; [auto|]. rewrite Z.add_0_r. exact E.
+Qed.
+
+Lemma take_run_consec : forall k R a q, consec a R -> stops (a + Z.of_nat (length R)) q ->
+  take_run k a (R ++ q) = (firstn k R, skipn k R ++ q).
+Proof.
+  induction k as [|k IH]; intros R a q C St.
+  - cbn [firstn skipn]. destruct (R ++ q); reflexivity.
+  - destruct R as [|c R'].
+    + cbn [app firstn skipn]. destruct q as [|[a' b] q']; [reflexivity|].
+      cbn in St. rewrite Z.add_0_r in St. cbn [take_run]. apply Z.eqb_neq in St. cbn [fst] in St. rewrite St. reflexivity.
+    + destruct c as [a' b]. cbn in C. destruct C as [E C]. subst a'. cbn [app take_run]. rewrite Z.eqb_refl.
+      rewrite (IH R' (a + 1) q C); [reflexivity|].
+      cbn [length] in St. replace (a + 1 + Z.of_nat (length R')) with (a + Z.of_nat (S (length R'))) by lia. exact St.
+Qed.
+
+Lemma take_run_app : forall k cs a p q, take_run k a cs = (p, q) -> cs = p ++ q.
+Proof.
+  induction k as [|k IH]; intros cs a p q H.
+  - destruct cs; inversion H; reflexivity.
+  - destruct cs as [|[a' b] r]; [inversion H; reflexivity|]. cbn [take_run] in H.
+    destruct (a' =? a).
+    + destruct (take_run k (a + 1) r) as [p' q'] eqn:E. inversion H; subst. cbn. f_equal. eapply IH; eauto.
+    + inversion H; reflexivity.
+Qed.
+
+Lemma pack_fuel : forall n f1 f2 cs, (0 < n)%nat -> (length cs <= f1)%nat -> (length cs <= f2)%nat -> pack f1 n cs = pack f2 n cs.
+Proof.
+  intros n f1. induction f1 as [|f1 IH]; intros f2 cs Hn H1 H2.
+  - destruct cs; [|cbn in H1; lia]. destruct f2; reflexivity.
+  - destruct cs as [|[a b] r]; [destruct f2; reflexivity|].
+    destruct f2 as [|f2]; [cbn in H2; lia|].
+    cbn [pack]. destruct n as [|n']; [lia|]. cbn [take_run]. rewrite Z.eqb_refl.
+    destruct (take_run n' (a + 1) r) as [p q] eqn:E. f_equal.
+    apply take_run_app in E. apply IH; [lia| |]; subst r; cbn in *; rewrite app_length in *; lia.
+Qed.
+
+Lemma chunks_fuel_irrel : forall {A} n f1 f2 (l : list A), (0 < n)%nat -> (length l <= f1)%nat -> (length l <= f2)%nat ->
+  chunks_fuel f1 n l = chunks_fuel f2 n l.
+Proof.
+  intros A n f1. induction f1 as [|f1 IH]; intros f2 l Hn H1 H2.
+  - destruct l; [|cbn in H1; lia]. destruct f2; reflexivity.
+  - destruct l as [|x r]; [destruct f2; reflexivity|].
+    destruct f2 as [|f2]; [cbn in H2; lia|].
+    cbn [chunks_fuel]. f_equal. pose proof (skipn_length n (x :: r)) as L. cbn [length] in *.
+    apply IH; [assumption| |]; lia.
+Qed.
+
+Lemma chunks_cons : forall {A} n (l : list A), (0 < n)%nat -> l <> [] -> chunks n l = firstn n l :: chunks n (skipn n l).
+Proof.
+  intros A n l Hn Hl. unfold chunks. destruct l as [|x r]; [congruence|].
+  cbn [length chunks_fuel]. f_equal. pose proof (skipn_length n (x :: r)) as L. cbn [length] in L.
+  apply chunks_fuel_irrel; [assumption| |]; lia.
+Qed.
+
+Lemma consec_skipn : forall k R a, consec a R -> consec (a + Z.of_nat k) (skipn k R).
+Proof.
+  induction k as [|k IH]; intros R a C.
+  - cbn. rewrite Z.add_0_r. exact C.
+  - destruct R as [|c R']; [exact I|]. cbn [skipn]. destruct C as [_ C]. apply (IH R' (a + 1)) in C.
+    replace (a + Z.of_nat (S k)) with (a + 1 + Z.of_nat k) by lia. exact C.
+Qed.
+
+Lemma pack_step : forall f n R a q, R <> [] -> consec a R ->
+  pack (S f) n (R ++ q) = (let (p, q0) := take_run n a (R ++ q) in p :: pack f n q0).
+Proof.
+  intros f n R a q HR C. destruct R as [|[a0 b] R']; [congruence|]. destruct C as [E _]. cbn in E. subst a0. reflexivity.
+Qed.
+
+Lemma pack_run : forall n m R a q fuel, (0 < n)%nat -> (length R <= m)%nat -> R <> [] -> consec a R ->
+  stops (a + Z.of_nat (length R)) q -> (length (R ++ q) <= fuel)%nat ->
+  pack fuel n (R ++ q) = chunks n R ++ pack (length q) n q.
+Proof.
+  intros n m. induction m as [|m IH]; intros R a q fuel Hn Hm HR C St Hf.
+  - destruct R; [congruence|cbn in Hm; lia].
+  - destruct fuel as [|f]; [destruct R; [congruence|cbn in Hf; lia]|].
+    rewrite (pack_step f n R a q HR C), (take_run_consec n R a q C St).
+    rewrite chunks_cons by assumption. cbn [app]. f_equal.
+    assert (HRl : (0 < length R)%nat) by (destruct R; [congruence|cbn; lia]).
+    rewrite app_length in Hf.
+    destruct (skipn n R) as [|c' R2] eqn:ES.
+    + cbn [app]. unfold chunks. cbn. apply pack_fuel; [assumption|lia|lia].
+    + rewrite <- ES. pose proof (skipn_length n R) as L. rewrite ES in L. cbn [length] in L.
+      apply (IH (skipn n R) (a + Z.of_nat n) q f); try assumption.
+      * rewrite ES. cbn [length]. lia.
+      * rewrite ES. congruence.
+      * apply consec_skipn. exact C.
+      * rewrite skipn_length. replace (a + Z.of_nat n + Z.of_nat (length R - n)) with (a + Z.of_nat (length R)) by lia. exact St.
+      * rewrite app_length, skipn_length. lia.
+Qed.
+
+Lemma runs_pack : forall n fuel cs, (0 < n)%nat -> (length cs <= fuel)%nat ->
+  flat_map (chunks n) (runs_rec fuel cs) = pack fuel n cs.
+Proof.
+  intros n fuel. induction fuel as [|f IH]; intros cs Hn Hl.
+  - reflexivity.
+  - destruct cs as [|c r]; [reflexivity|].
+    cbn [runs_rec]. destruct (span_run (fst c + 1) r) as [p q] eqn:E.
+    pose proof (span_run_app _ _ _ _ E) as Er. pose proof (span_run_spec _ _ _ _ E) as [C St].
+    cbn [flat_map]. subst r.
+    assert (Hq : (length q <= f)%nat) by (cbn [length] in Hl; rewrite app_length in Hl; lia).
+    rewrite IH by assumption.
+    change (c :: p ++ q) with ((c :: p) ++ q).
+    rewrite (pack_run n (length (c :: p)) (c :: p) (fst c) q (S f)); try assumption; try congruence; try lia.
+    + f_equal. apply pack_fuel; [assumption|lia|lia].
+    + cbn. auto.
+    + cbn [length]. replace (fst c + Z.of_nat (S (length p))) with (fst c + 1 + Z.of_nat (length p)) by lia. exact St.
+Qed.
+
+Lemma model_rows_pack : forall n cs, (0 < n)%nat -> flat_map (chunks n) (runs cs) = pack (length cs) n cs.
+Proof. intros. rewrite runs_eq. apply runs_pack; [assumption|lia]. Qed.
+(* ------------------------------------------------------------------ line table: find_line = number of line feeds before the position *)
+Lemma line_starts_gt : forall src b l, In l (line_starts src b) -> b < l.
+Proof.
+  induction src as [|c r IH]; intros b l H; cbn [line_starts] in H; [contradiction|].
+  destruct (N.eqb c 10).
+  - destruct H as [H|H]; [lia|]. apply IH in H. lia.
+  - apply IH in H. lia.
+Qed.
+
+Lemma filter_none : forall {A} (p : A -> bool) l, (forall x, In x l -> p x = false) -> filter p l = [].
+Proof.
+  induction l as [|x r IH]; intros H; [reflexivity|]. cbn. rewrite (H x (or_introl eq_refl)). apply IH. intros; apply H; right; assumption.
+Qed.
+
+Lemma line_count : forall src base pos, base <= pos ->
+  length (filter (fun l => l <=? pos) (line_starts src base)) =
+  length (filter (N.eqb 10) (firstn (Z.to_nat (pos - base)) src)).
+Proof.
+  induction src as [|c r IH]; intros base pos H.
+  - rewrite firstn_nil. reflexivity.
+  - destruct (Z.eq_dec pos base) as [E|E].
+    + subst pos. rewrite Z.sub_diag. cbn [Z.to_nat firstn filter length].
+      rewrite filter_none; [reflexivity|]. intros l Hl. apply line_starts_gt in Hl. apply Z.leb_gt. exact Hl.
+    + assert (Hk : Z.to_nat (pos - base) = S (Z.to_nat (pos - (base + 1)))) by lia.
+      rewrite Hk. cbn [firstn line_starts filter]. rewrite (N.eqb_sym 10 c).
+      destruct (N.eqb c 10).
+      * cbn [filter]. replace (base + 1 <=? pos) with true by (symmetry; apply Z.leb_le; lia).
+        cbn [length]. f_equal. apply IH. lia.
+      * apply IH. lia.
+Qed.
+
+Lemma find_line_spec : forall f pos, 0 <= pos -> find_line_tbl (lines f) pos = spec_line (f_src f) pos.
+Proof.
+  intros f pos H. unfold find_line_tbl, lines, spec_line. cbn [filter].
+  replace (0 <=? pos) with true by (symmetry; apply Z.leb_le; lia). cbn [length Nat.pred].
+  rewrite line_count by lia. rewrite Z.sub_0_r. reflexivity.
+Qed.
+
+Lemma find_file_name : forall cm n f, find_file cm n = Ok f -> f_name f = n.
+Proof.
+  induction cm as [|g r IH]; intros n f H; cbn [find_file] in H; [discriminate|].
+  destruct (N.eqb (f_name g) n) eqn:E; [inversion H; subst; apply N.eqb_eq; exact E|apply IH; exact H].
+Qed.
+
+(* look_up_span of a span inside a file of the code map *)
+Lemma look_up_span_ok : forall cm s, span_ok cm s ->
+  exists sl, look_up_span cm s = Ok sl /\ sl_file sl = sp_file s /\
+             lc_line (sl_begin sl) = spec_line (src_of cm (sp_file s)) (sp_lo s).
+Proof.
+  intros cm s [f [Hf [Hlo Hhi]]]. unfold look_up_span. rewrite Hf. cbn [bind].
+  unfold find_line_col, find_line.
+  replace ((0 <=? sp_lo s) && (sp_lo s <=? file_len f)) with true by (symmetry; apply andb_true_iff; split; apply Z.leb_le; lia).
+  replace ((0 <=? sp_hi s) && (sp_hi s <=? file_len f)) with true by (symmetry; apply andb_true_iff; split; apply Z.leb_le; lia).
+  cbn [bind]. eexists. split; [reflexivity|]. cbn [sl_file sl_begin lc_line]. split.
+  - apply find_file_name in Hf. exact Hf.
+  - unfold src_of. rewrite Hf. apply find_line_spec. lia.
+Qed.
+
+(* ------------------------------------------------------------------ bytes of an entry *)
+Lemma skipn_cons_nth : forall {A} n (l : list A) x t, skipn n l = x :: t -> nth_error l n = Some x /\ skipn (S n) l = t.
+Proof.
+  induction n as [|n IH]; intros l x t H.
+  - destruct l; cbn in H; [discriminate|]. inversion H; subst. split; reflexivity.
+  - destruct l as [|y r]; [cbn in H; discriminate|]. cbn [skipn] in H. apply IH in H. exact H.
+Qed.
+
+Lemma read_cells_slice : forall bs data start pc,
+  slice data start (length bs) = bs -> read_cells data start pc (length bs) = Ok (cells_from pc bs).
+Proof.
+  induction bs as [|b r IH]; intros data start pc H; [reflexivity|].
+  unfold slice in H. cbn [length] in H.
+  destruct (skipn start data) as [|x t] eqn:E; [cbn in H; discriminate|].
+  cbn [firstn] in H. injection H as Hx Ht. subst x. apply skipn_cons_nth in E. destruct E as [E1 E2].
+  cbn [length read_cells cells_from]. rewrite E1.
+  rewrite (IH data (S start) (pc + 1)); [reflexivity|]. unfold slice. rewrite E2. assumption.
+Qed.
+
+Lemma offset_cells_ok : forall segs o bs, entry_ok segs o bs -> offset_cells segs o = Ok (cells_from (o_pc0 o) bs).
+Proof.
+  intros segs o bs [Hpc Hseg]. unfold offset_cells.
+  destruct bs as [|b r].
+  - cbn [length Z.of_nat] in Hpc. rewrite Z.add_0_r in Hpc. rewrite Hpc, Z.sub_diag. cbn [Z.to_nat cells_from].
+    destruct (get_segment segs (o_segment o)); [|reflexivity].
+    destruct ((ls_lo l <=? o_pc0 o - ls_toff l) && (ls_hi l >=? o_pc0 o - ls_toff l)); reflexivity.
+  - destruct Hseg as [seg [Hg [Hlo [Hhi Hs]]]]; [discriminate|]. rewrite Hg.
+    replace ((ls_lo seg <=? o_pc0 o - ls_toff seg) && (ls_hi seg >=? o_pc1 o - ls_toff seg)) with true
+      by (symmetry; apply andb_true_iff; split; [apply Z.leb_le|apply Z.geb_le]; lia).
+    replace (Z.to_nat (o_pc1 o - o_pc0 o)) with (length (b :: r)) by lia.
+    replace (o_pc0 o - ls_toff seg - ls_lo seg) with (o_pc0 o - ls_toff seg - ls_lo seg) in Hs by reflexivity.
+    apply read_cells_slice. exact Hs.
+Qed.
+
+(* ------------------------------------------------------------------ one line *)
+Definition sel (cm : code_map) (name : N) (line : nat) (e : offset * list N) : bool :=
+  on_line name line (emission_of cm e).
+
+Lemma mapM_cells : forall segs (q : offset -> bool) es, wf_emission segs es ->
+  mapM (offset_cells segs) (filter q (map fst es)) =
+  Ok (map (fun e => cells_from (o_pc0 (fst e)) (snd e)) (filter (fun e => q (fst e)) es)).
+Proof.
+  induction es as [|e r IH]; intros W; [reflexivity|].
+  inversion W as [|? ? He Wr]; subst. cbn [map filter]. destruct (q (fst e)).
+  - cbn [mapM map]. rewrite (offset_cells_ok _ _ _ He). cbn [bind]. rewrite IH by assumption. reflexivity.
+  - apply IH. assumption.
+Qed.
+
+Lemma filter_filter : forall {A} (p q : A -> bool) l, filter p (filter q l) = filter (fun x => q x && p x) l.
+Proof.
+  induction l as [|x r IH]; [reflexivity|]. cbn [filter]. destruct (q x); cbn [filter andb]; [destruct (p x)|]; rewrite IH; reflexivity.
+Qed.
+
+Lemma cells_emissions : forall cm name line es,
+  concat (map (fun e => cells_from (o_pc0 (fst e)) (snd e)) (filter (fun e => on_line name line (emission_of cm e)) es)) =
+  flat_map em_cells (filter (on_line name line) (map (emission_of cm) es)).
+Proof.
+  induction es as [|e r IH]; [reflexivity|].
+  cbn [filter map]. destruct (on_line name line (emission_of cm e)).
+  - cbn [map concat flat_map]. rewrite IH. reflexivity.
+  - exact IH.
+Qed.
+
+Lemma line_data_ok : forall cm segs es name line, wf_emission segs es -> spans_ok cm es ->
+  line_data cm (map fst es) segs name line = Ok (line_cells (emissions cm es) name line).
+Proof.
+  intros cm segs es name line W S. unfold line_data, line_col_to_offsets.
+  set (bl := fun o : offset => spec_line (src_of cm (sp_file (o_span o))) (sp_lo (o_span o))).
+  set (q1 := fun o : offset => match look_up_span cm (o_span o) with
+                               | Ok sl => N.eqb (sp_file (o_span o)) name &&
+                                          (((bl o <? line)%nat && (line <? lc_line (sl_end sl))%nat) || (line =? bl o)%nat)
+                               | Panic => false end).
+  assert (Hin : forall o, In o (map fst es) -> span_ok cm (o_span o)).
+  { intros o Ho. apply in_map_iff in Ho. destruct Ho as [e [He Hi]]. subst o.
+    unfold spans_ok in S. rewrite Forall_forall in S. apply S. exact Hi. }
+  rewrite (filterM_ok _ q1).
+  2:{ intros o Ho. destruct (look_up_span_ok cm (o_span o) (Hin o Ho)) as [sl [Hl [Hf Hb]]].
+      unfold matches_line_col, q1. rewrite Hl. cbn [bind]. rewrite Hf, Hb. fold (bl o).
+      destruct (N.eqb (sp_file (o_span o)) name); cbn [negb andb]; [|reflexivity].
+      destruct ((bl o <? line)%nat && (line <? lc_line (sl_end sl))%nat); reflexivity. }
+  cbn [bind].
+  rewrite (filterM_ok _ (fun o => (bl o =? line)%nat)).
+  2:{ intros o Ho. apply filter_In in Ho. destruct Ho as [Ho _].
+      destruct (look_up_span_ok cm (o_span o) (Hin o Ho)) as [sl [Hl [Hf Hb]]].
+      unfold begins_on. rewrite Hl. cbn [bind]. rewrite Hb. reflexivity. }
+  cbn [bind]. rewrite filter_filter.
+  rewrite (filter_ext_in _ (fun o => N.eqb (sp_file (o_span o)) name && (bl o =? line)%nat)).
+  2:{ intros o Ho. destruct (look_up_span_ok cm (o_span o) (Hin o Ho)) as [sl [Hl _]]. unfold q1. rewrite Hl.
+      destruct (N.eqb (sp_file (o_span o)) name); cbn [andb]; [|reflexivity].
+      destruct (Nat.eqb_spec (bl o) line) as [E|E].
+      - rewrite E, Nat.eqb_refl, orb_true_r. reflexivity.
+      - rewrite andb_false_r. reflexivity. }
+  rewrite (mapM_cells segs _ es W). cbn [bind]. f_equal.
+  unfold line_cells, emissions. rewrite <- cells_emissions. reflexivity.
+Qed.
+
+(* ------------------------------------------------------------------ rows *)
+Lemma chunk_rows_number : forall line first gs, chunk_rows line first gs = number_rows line first gs.
+Proof.
+  intros line first gs. revert first. induction gs as [|g r IH]; intros first; [reflexivity|].
+  cbn [chunk_rows number_rows]. rewrite IH. f_equal. unfold chunk_row. f_equal. destruct g as [|[pc b] t]; reflexivity.
+Qed.
+
+Lemma rows_of_data_ok : forall n line data, (0 < n)%nat -> rows_of_data n line data = Ok (spec_line_rows n line data).
+Proof.
+  intros n line data Hn. unfold rows_of_data, spec_line_rows. destruct data as [|c r]; [reflexivity|].
+  destruct n; [lia|]. cbn [Nat.eqb]. rewrite chunk_rows_number, model_rows_pack by lia. reflexivity.
+Qed.
+
+Theorem listing_rows : forall cm segs es n f,
+  wf_emission segs es -> spans_ok cm es -> (0 < n)%nat ->
+  to_listing_file cm (map fst es) segs n f = Ok (spec_rows n (num_lines f) (f_name f) (emissions cm es)).
+Proof.
+  intros cm segs es n f W S Hn. unfold to_listing_file, spec_rows.
+  rewrite (mapM_ok _ (fun line => spec_line_rows n line (line_cells (emissions cm es) (f_name f) line))).
+  - cbn [bind]. rewrite flat_map_concat_map. reflexivity.
+  - intros line _. unfold line_rows. rewrite line_data_ok by assumption. cbn [bind]. apply rows_of_data_ok. exact Hn.
+Qed.
+(* ------------------------------------------------------------------ every source line once, in order *)
+Definition line_group_ok (line : nat) (g : list row) : Prop :=
+  g <> [] /\ Forall (fun r => r_line r = line) g /\ map r_src g = true :: repeat false (length g - 1).
+
+Lemma mapM_inv : forall {A B} (f : A -> res B) l ys, mapM f l = Ok ys -> Forall2 (fun x y => f x = Ok y) l ys.
+Proof.
+  induction l as [|x r IH]; intros ys H; cbn [mapM] in H.
+  - inversion H. constructor.
+  - destruct (f x) as [y|] eqn:E; [|discriminate]. cbn [bind] in H.
+    destruct (mapM f r) as [ys'|] eqn:E2; [|discriminate]. cbn [bind] in H. inversion H; subst.
+    constructor; [assumption|apply IH; reflexivity].
+Qed.
+
+Lemma number_rows_group : forall line gs, gs <> [] -> line_group_ok line (number_rows line true gs).
+Proof.
+  intros line gs H. destruct gs as [|g r]; [congruence|]. cbn [number_rows].
+  assert (G : forall gs', Forall (fun r => r_line r = line) (number_rows line false gs') /\
+                          map r_src (number_rows line false gs') = repeat false (length (number_rows line false gs'))).
+  { induction gs' as [|g' r' IH]; [split; constructor|]. cbn [number_rows]. destruct IH as [I1 I2]. split.
+    - constructor; [reflexivity|assumption].
+    - cbn [map length repeat r_src]. f_equal. exact I2. }
+  destruct (G r) as [G1 G2]. split; [discriminate|]. split.
+  - constructor; [reflexivity|exact G1].
+  - cbn [map length r_src Nat.sub]. rewrite Nat.sub_0_r. f_equal. exact G2.
+Qed.
+
+Lemma pack_nonempty : forall n cs, cs <> [] -> pack (length cs) n cs <> [].
+Proof. intros n [|[a b] r] H; [congruence|]. cbn [length pack]. destruct (take_run _ _ _) as [p q]. intro H0. inversion H0. Qed.
+
+Lemma rows_of_data_group : forall n line data rs, rows_of_data n line data = Ok rs -> line_group_ok line rs.
+Proof.
+  intros n line data rs H. unfold rows_of_data in H. destruct data as [|c r].
+  - inversion H; subst. split; [discriminate|]. split; [repeat constructor|reflexivity].
+  - destruct n as [|n']; [discriminate|]. cbn [Nat.eqb] in H. inversion H; subst.
+    rewrite chunk_rows_number, model_rows_pack by lia. apply number_rows_group. apply pack_nonempty. discriminate.
+Qed.
+
+Theorem lines_once_in_order : forall cm sm segs n f rows,
+  to_listing_file cm sm segs n f = Ok rows ->
+  exists groups, rows = concat groups /\ Forall2 line_group_ok (seq 0 (num_lines f)) groups.
+Proof.
+  intros cm sm segs n f rows H. unfold to_listing_file in H.
+  destruct (mapM (line_rows cm sm segs n (f_name f)) (seq 0 (num_lines f))) as [gs|] eqn:E; [|discriminate].
+  cbn [bind] in H. inversion H; subst. clear H. exists gs. split; [reflexivity|].
+  apply mapM_inv in E. revert E. generalize (seq 0 (num_lines f)). intros l E.
+  induction E as [|line g l' gs' Hg E IH]; [constructor|]. constructor; [|exact IH].
+  unfold line_rows in Hg. destruct (line_data cm sm segs (f_name f) line) as [d|]; [|discriminate].
+  cbn [bind] in Hg. eapply rows_of_data_group. exact Hg.
+Qed.
+
+(* ------------------------------------------------------------------ every byte of the file's statements exactly once *)
+Lemma cells_from_consec : forall g a, consec a g -> cells_from a (map snd g) = g.
+Proof.
+  induction g as [|[a' b] r IH]; intros a C; [reflexivity|]. destruct C as [E C]. cbn in E. subst a'.
+  cbn [map snd cells_from]. f_equal. apply IH. exact C.
+Qed.
+
+Lemma take_run_out_consec : forall k cs a p q, take_run k a cs = (p, q) -> consec a p.
+Proof.
+  induction k as [|k IH]; intros cs a p q H.
+  - destruct cs; inversion H; exact I.
+  - destruct cs as [|[a' b] r]; [inversion H; exact I|]. cbn [take_run] in H. destruct (a' =? a) eqn:E.
+    + destruct (take_run k (a + 1) r) as [p' q'] eqn:E2. inversion H; subst. apply Z.eqb_eq in E. split; [exact E|]. eapply IH; eauto.
+    + inversion H; exact I.
+Qed.
+
+Lemma number_rows_cells : forall line first gs,
+  Forall (fun g => match g with [] => True | c :: _ => consec (fst c) g end) gs ->
+  flat_map row_cells (number_rows line first gs) = concat gs.
+Proof.
+  intros line first gs. revert first. induction gs as [|g r IH]; intros first F; [reflexivity|].
+  inversion F as [|? ? Hg Fr]; subst. cbn [number_rows flat_map concat]. rewrite IH by assumption. f_equal.
+  unfold row_cells. cbn [r_addr r_bytes]. destruct g as [|c t]; [reflexivity|]. cbn [hd_error option_map].
+  apply cells_from_consec. exact Hg.
+Qed.
+
+Lemma pack_props : forall n fuel cs, (0 < n)%nat -> (length cs <= fuel)%nat ->
+  concat (pack fuel n cs) = cs /\ Forall (fun g => match g with [] => True | c :: _ => consec (fst c) g end) (pack fuel n cs).
+Proof.
+  intros n fuel. induction fuel as [|f IH]; intros cs Hn Hl.
+  - destruct cs; [split; [reflexivity|constructor]|cbn in Hl; lia].
+  - destruct cs as [|[a b] r]; [split; [reflexivity|constructor]|].
+    cbn [pack]. destruct (take_run _ _ _) as [p q] eqn:E.
+    pose proof (take_run_app _ _ _ _ _ E) as Ea. pose proof (take_run_out_consec _ _ _ _ _ E) as Ec.
+    assert (Hp : p <> []).
+    { destruct n as [|n']; [lia|]. cbn [take_run] in E. rewrite Z.eqb_refl in E. destruct (take_run n' (a + 1) r). inversion E. discriminate. }
+    assert (Hq : (length q <= f)%nat).
+    { pose proof (f_equal (@length _) Ea) as L. rewrite app_length in L. cbn [length] in *.
+      destruct p; [congruence|cbn [length] in L; lia]. }
+    destruct (IH q Hn Hq) as [I1 I2]. split.
+    + cbn [concat]. rewrite I1. symmetry. exact Ea.
+    + constructor; [|exact I2]. destruct p as [|c t]; [exact I|].
+      destruct c as [a0 b0]. destruct Ec as [E0 _]. cbn in E0. cbn [fst]. subst a0. split; [reflexivity|].
+      pose proof (take_run_out_consec _ _ _ _ _ E) as [_ C2]. exact C2.
+Qed.
+
+Lemma spec_line_rows_cells : forall n line cs, (0 < n)%nat -> flat_map row_cells (spec_line_rows n line cs) = cs.
+Proof.
+  intros n line cs Hn. unfold spec_line_rows. destruct cs as [|c r]; [reflexivity|].
+  destruct (pack_props n (length (c :: r)) (c :: r) Hn (le_n _)) as [P1 P2].
+  rewrite number_rows_cells by exact P2. exact P1.
+Qed.
+
+Lemma filter_split_perm : forall {A} (p q : A -> bool) l,
+  (forall x, p x = true -> q x = true -> False) ->
+  Permutation (filter (fun x => p x || q x) l) (filter p l ++ filter q l).
+Proof.
+  intros A p q l D. induction l as [|x r IH]; [constructor|]. cbn [filter].
+  destruct (p x) eqn:Ep, (q x) eqn:Eq; cbn [orb app].
+  - exfalso. eapply D; eauto.
+  - constructor. exact IH.
+  - apply Permutation_cons_app. exact IH.
+  - exact IH.
+Qed.
+
+Lemma group_by_line_perm : forall (l : list emission) nl,
+  Permutation (flat_map (fun line => filter (fun e => (em_line e =? line)%nat) l) (seq 0 nl))
+              (filter (fun e => (em_line e <? nl)%nat) l).
+Proof.
+  intros l nl. induction nl as [|k IH].
+  - cbn. rewrite filter_none; [constructor|]. intros; reflexivity.
+  - rewrite seq_S, flat_map_app. cbn [flat_map Nat.add]. rewrite app_nil_r.
+    rewrite (filter_ext (fun e => (em_line e <? S k)%nat) (fun e => (em_line e <? k)%nat || (em_line e =? k)%nat)).
+    + etransitivity; [|symmetry; apply filter_split_perm].
+      * apply Permutation_app_tail. exact IH.
+      * intros x H1 H2. apply Nat.ltb_lt in H1. apply Nat.eqb_eq in H2. lia.
+    + intros e. destruct (Nat.ltb_spec (em_line e) (S k)), (Nat.ltb_spec (em_line e) k), (Nat.eqb_spec (em_line e) k); cbn; try reflexivity; lia.
+Qed.
+
+Lemma flat_map_perm : forall {A B} (f g : A -> list B) l, (forall x, Permutation (f x) (g x)) -> Permutation (flat_map f l) (flat_map g l).
+Proof. intros A B f g l H. induction l; [constructor|]. cbn. apply Permutation_app; [apply H|assumption]. Qed.
+
+Lemma flat_map_flat_map_filter : forall (p : emission -> bool) l,
+  flat_map em_cells (filter p l) = flat_map (fun e => if p e then em_cells e else []) l.
+Proof. induction l as [|x r IH]; [reflexivity|]. cbn [filter flat_map]. destruct (p x); cbn [flat_map]; rewrite IH; reflexivity. Qed.
+
+Lemma flat_map_flat_map : forall {A B C} (f : B -> list C) (g : A -> list B) l,
+  flat_map f (flat_map g l) = flat_map (fun x => flat_map f (g x)) l.
+Proof. induction l as [|x r IH]; [reflexivity|]. cbn [flat_map]. rewrite flat_map_app, IH. reflexivity. Qed.
+
+(* the rows of a file show, as a multiset, exactly the cells of the emissions of the statements that begin in that file *)
+Theorem spec_rows_cells : forall n nl name ems, (0 < n)%nat ->
+  Forall (fun e => em_file e = name -> (em_line e < nl)%nat) ems ->
+  Permutation (flat_map row_cells (spec_rows n nl name ems))
+              (flat_map em_cells (filter (fun e => N.eqb (em_file e) name) ems)).
+Proof.
+  intros n nl name ems Hn Hl. unfold spec_rows.
+  rewrite flat_map_flat_map.
+  rewrite (flat_map_ext _ (fun line => line_cells ems name line)) by (intros; apply spec_line_rows_cells; exact Hn).
+  unfold line_cells.
+  set (l := filter (fun e => N.eqb (em_file e) name) ems).
+  rewrite (flat_map_ext _ (fun line => flat_map em_cells (filter (fun e => (em_line e =? line)%nat) l))).
+  2:{ intros line. unfold l. rewrite filter_filter. f_equal. }
+  assert (E : filter (fun e => (em_line e <? nl)%nat) l = l).
+  { unfold l. clear l. induction ems as [|e r IH]; [reflexivity|]. inversion Hl as [|? ? He Hr]; subst. cbn [filter].
+    destruct (N.eqb (em_file e) name) eqn:En; [|apply IH; assumption].
+    cbn [filter]. apply N.eqb_eq in En. apply He in En. apply Nat.ltb_lt in En. rewrite En. f_equal. apply IH. assumption. }
+  replace (flat_map em_cells l) with (flat_map em_cells (filter (fun e => (em_line e <? nl)%nat) l)) by (rewrite E; reflexivity).
+  clear E. clearbody l. clear Hl.
+  induction nl as [|k IH].
+  - cbn. rewrite filter_none; [constructor|reflexivity].
+  - rewrite seq_S, flat_map_app. cbn [flat_map Nat.add]. rewrite app_nil_r.
+    rewrite (filter_ext (fun e => (em_line e <? S k)%nat) (fun e => (em_line e <? k)%nat || (em_line e =? k)%nat)).
+    + etransitivity; [apply Permutation_app_tail; exact IH|].
+      rewrite <- flat_map_app. apply Permutation_flat_map.
+      symmetry. apply filter_split_perm.
+      intros x H1 H2. apply Nat.ltb_lt in H1. apply Nat.eqb_eq in H2. lia.
+    + intros e. destruct (Nat.ltb_spec (em_line e) (S k)), (Nat.ltb_spec (em_line e) k), (Nat.eqb_spec (em_line e) k); cbn; try reflexivity; lia.
+Qed.
+(* ------------------------------------------------------------------ every byte once, on the model's output *)
+Lemma filter_firstn_le : forall {A} (p : A -> bool) k l, (length (filter p (firstn k l)) <= length (filter p l))%nat.
+Proof.
+  induction k as [|k IH]; intros l; [cbn; lia|]. destruct l as [|x r]; [cbn; lia|].
+  cbn [firstn filter]. specialize (IH r). destruct (p x); cbn [length]; lia.
+Qed.
+
+Lemma line_starts_length : forall src b, length (line_starts src b) = length (filter (N.eqb 10) src).
+Proof.
+  induction src as [|c r IH]; intros b; [reflexivity|]. cbn [line_starts filter]. rewrite (N.eqb_sym 10 c).
+  destruct (N.eqb c 10); cbn [length]; rewrite IH; reflexivity.
+Qed.
+
+Lemma spec_line_lt_num_lines : forall f pos, (spec_line (f_src f) pos < num_lines f)%nat.
+Proof.
+  intros f pos. unfold spec_line, num_lines, lines. cbn [length]. rewrite line_starts_length.
+  pose proof (filter_firstn_le (N.eqb 10) (Z.to_nat pos) (f_src f)). lia.
+Qed.
+
+Theorem every_byte_once : forall cm segs es n f rows,
+  wf_emission segs es -> spans_ok cm es -> (0 < n)%nat -> find_file cm (f_name f) = Ok f ->
+  to_listing_file cm (map fst es) segs n f = Ok rows ->
+  Permutation (flat_map row_cells rows)
+              (flat_map em_cells (filter (fun e => N.eqb (em_file e) (f_name f)) (emissions cm es))).
+Proof.
+  intros cm segs es n f rows W S Hn Hf H. rewrite (listing_rows cm segs es n f W S Hn) in H. inversion H; subst. clear H.
+  apply spec_rows_cells; [exact Hn|].
+  unfold emissions. rewrite Forall_map. apply Forall_forall. intros e _ He.
+  unfold emission_of in *. cbn [em_file em_line] in *. rewrite He. unfold src_of. rewrite Hf. apply spec_line_lt_num_lines.
+Qed.
+
+(* ------------------------------------------------------------------ address_to_offset *)
+Definition covers (pc : Z) (o : offset) : Prop := o_pc0 o <= pc < o_pc1 o.
+
+Theorem address_to_offset_spec : forall sm pc,
+  match address_to_offset sm pc with
+  | Some o => exists before after, sm = before ++ o :: after /\ covers pc o /\ Forall (fun o' => ~ covers pc o') before
+  | None => Forall (fun o' => ~ covers pc o') sm
+  end.
+Proof.
+  intros sm pc. unfold address_to_offset. induction sm as [|o r IH]; cbn [find]; [constructor|].
+  destruct ((o_pc0 o <=? pc) && (pc <? o_pc1 o)) eqn:E.
+  - exists [], r. split; [reflexivity|]. split; [|constructor]. apply andb_true_iff in E. destruct E as [E1 E2].
+    apply Z.leb_le in E1. apply Z.ltb_lt in E2. split; assumption.
+  - assert (N : ~ covers pc o).
+    { intros [C1 C2]. apply Z.leb_le in C1. apply Z.ltb_lt in C2. rewrite C1, C2 in E. discriminate. }
+    destruct (find _ r) as [o'|].
+    + destruct IH as [b [a [E1 [E2 E3]]]]. exists (o :: b), a. subst r. split; [reflexivity|]. split; [exact E2|]. constructor; assumption.
+    + constructor; assumption.
+Qed.
